@@ -3,6 +3,8 @@
      T0   model of MIR_output of the described context
      W1   model of the raw (uncompressed) bytes of MIR_write_with_func
      RB   ok / ERR:why   model of MIR_read_with_func on W1;  T1 = model text of what was read
+     TN1/TR1/TN2  model of module->last_temp_item_num / func->last_temp_num after the binary read, and of the
+          module counters after the scan
      SC   ok / ERR:why   model of MIR_scan_string on T0;  TAST = tnorm/differs: the scanned AST is / is not map tnorm_module of the input
       T2 = model text of what was scanned; SC2/T3 once more
    With argument "table" prints the model's insn table in the format of `c11_io table`. *)
@@ -133,6 +135,7 @@ let parse_case line : M.module0 list =
       | ["global"; t; n; h] ->
         (match !fn with Some f -> f.globals <- ((parse_type t, bytes_of_string n), bytes_of_string h) :: f.globals | None -> failwith "global")
       | "mklabels" :: _ -> ()
+      | "newctx" :: _ -> ()       (* labels are numbers in the AST: a context break only restarts the numbering *)
       | ["label"; n] -> (match !fn with Some f -> f.insns <- M.ILabel (z_of_dec n) :: f.insns | None -> failwith "label")
       | "insn" :: code :: ops ->
         let c = try Hashtbl.find opcode_tab code with Not_found -> failwith ("bad opcode " ^ code) in
@@ -144,12 +147,19 @@ let parse_case line : M.module0 list =
 
 let text ms = M.p_ctx M.fmtF M.fmtD M.fmtLD ms
 
+(* decimal of a non-negative Z below 2^62 *)
+let rec int_of_z = function M.Z0 -> 0 | M.Zpos p -> int_of_pos p | M.Zneg p -> - (int_of_pos p)
+let counters zs = String.concat "" (List.map (fun z -> string_of_int (int_of_z z) ^ ",") zs)
+
 let run_case line =
   let ms = parse_case line in
   let b = Buffer.create 4096 in
   let t0 = text ms in
   Buffer.add_string b ("T0=" ^ hex_of_bytes t0);
   Buffer.add_string b (if M.wf_ctx_b ms then "|WF=1" else "|WF=0");
+  (* temp-name counters the readers restore (coq/C11/TempNames.v) *)
+  Buffer.add_string b ("|TN1=" ^ counters (M.bin_item_counters ms) ^ "|TR1=" ^ counters (M.bin_reg_counters ms)
+                       ^ "|TN2=" ^ counters (M.text_item_counters ms));
   if not (M.writable_ctx ms) then Buffer.add_string b "|W1=ERR"
   else begin
     let w = M.write_ctx ms in
